@@ -39,6 +39,17 @@ CLAIMS['C21'] = dict(engine='rtc (E3)', category='exploration',
          'each jump once, classes are single orbits closed under the space group and reversal, and the lattice form encodes the same jumps.',
     note='Cutoffs/obstruction distances drawn midway between distinct distances; default distance 0 excludes paths through a site (code semantics).')
 
+CLAIMS['C19'] = dict(engine='rtc (E3)', category='exploration',
+    technique='run-time contract on Crystal construction with ghost input (primitive description, integer supercell matrix, atom permutation, sub-threshold noise); bounded stand-in',
+    text='Bounded: for catalogue crystals re-described in seeded supercells (|det| 2..3 quick, 2..6 thorough) with shuffled atoms, and for EVERY atom ordering of n x 1 cubic/square supercells, '
+         'the constructed crystal has the same volume per atom, atoms per cell per species, a right-handed lattice and the same group order, and construction never raises.',
+    note='The catalogue, matrix entries in [-2,2] and the listed n are the bound.')
+CLAIMS['C22'] = dict(engine='rtc (E3)', category='exploration',
+    technique='run-time postconditions of fullkptmesh/reducekptmesh (Brillouin-zone membership in a window, exact averages of invariant shell-cosine functions); bounded stand-in',
+    text='Bounded: lattices of every 2D/3D system plus seeded triclinic cells, even/odd/mixed mesh sizes: every mesh point lies in the Brillouin zone, the mesh is a regular grid '
+         'modulo the reciprocal lattice, reduced weights are positive, sum to one and reproduce the full-mesh average of invariant periodic functions to 1e-10.',
+    note='Window of 9^d reciprocal vectors, six orbit shells of lattice vectors as test functions.')
+
 NOT_APPLICABLE = {
     'C01': 'no contract within reach: the postcondition "equals the infinite-dilution limit of the exact Markov chain, to integration accuracy" needs an independent infinite-lattice solver as oracle (differential testing, a different technique) and no SMT/CAS obligation expresses a quadrature error; the discrete mechanisms it rests on are claimed in C24-C26, its invariances in C04, its sum rules in C06',
     'C05': 'a 2-safety statement about the Loewner order of two outputs (Rayleigh monotonicity): a variational theorem of detailed balance, not an invariant of any loop or a postcondition of one call; its only executable form is a numeric comparison of two runs (testing, not contract checking)',
